@@ -118,6 +118,9 @@ func runC03(res *hx.Result, rng *hx.Rng, tier string, outdir string) {
 			t.Coq(), ordered.Coq(), inRefl, hx.Hex(enc), hx.Hex(input), rd.class, hx.Hex(rd.data), rd.left, de.class, valOrNil(de.val), de.left),
 			fmt.Sprintf("sig=%s val=%s trail=%x", sig, v.Canon(), trail))
 	}
+	for _, r := range readerAliasReports {
+		res.Fail("reader-result-overwritten", r)
+	}
 	cs.Flush()
 }
 
